@@ -20,6 +20,9 @@ type allOfConstraintCompiler struct {
 	compiledTypes map[string]struct{}
 
 	foundTypes map[string]ischema.Type
+
+	// foundNames the keys of foundTypes in the order they were found.
+	foundNames []string
 }
 
 // CompileAllOf compile "allOf" rules in root schema, and in all types.
@@ -35,12 +38,12 @@ func CompileAllOf(rootSchema *ischema.ISchema) {
 	c.processSchema(rootSchema)
 
 	// In case allow is used only in types (not in the root schema).
-	for name := range rootSchema.TypesList() {
+	for _, name := range rootSchema.TypeNames() {
 		c.processType(name)
 	}
 
-	for n, t := range c.foundTypes {
-		rootSchema.AddType(n, t)
+	for _, n := range c.foundNames {
+		rootSchema.AddType(n, c.foundTypes[n])
 	}
 }
 
@@ -86,8 +89,12 @@ func (c *allOfConstraintCompiler) extendWith(node ischema.Node, name string) {
 	)
 	schem := c.processType(name)
 
-	for n, t := range schem.TypesList() {
-		c.foundTypes[n] = t
+	schemTypes := schem.TypesList()
+	for _, n := range schem.TypeNames() {
+		if _, ok := c.foundTypes[n]; !ok {
+			c.foundNames = append(c.foundNames, n)
+		}
+		c.foundTypes[n] = schemTypes[n]
 	}
 
 	fromObject, ok := schem.RootNode().(*ischema.ObjectNode)
